@@ -120,7 +120,7 @@ func (P *Prog) offsetExact(v ssa.Value, at *ssa.BasicBlock, depth int) (bool, st
 	if depth > 6 {
 		return false, "derivation too deep"
 	}
-	v = stripConv(v)
+	v = stripConv(resolveLocal(stripConv(v)))
 	switch x := v.(type) {
 	case *ssa.Const:
 		k, ok := constInt(x)
@@ -984,6 +984,42 @@ func (R *Run) ruleReplyConsistency() {
 				switch {
 				case v == ssa.Value(ts.Params[1]):
 					k = "offset"
+				case func() bool {
+					// the header measured as the length of the very encoding Read emits (built by the same expression),
+					// instead of draining a copy of the object
+					lc, isLen := v.(*ssa.Call)
+					if !isLen || calleeName(&lc.Call) != "builtin.len" {
+						return false
+					}
+					rd := P.fn("(*hotline.flattenedFileObject).Read")
+					if rd == nil {
+						return false
+					}
+					concatSym := func(from ssa.Value) string {
+						out := ""
+						P.reaches(from, func(x ssa.Value) bool {
+							if cv := callValue(x); cv != nil && calleeName(&cv.Call) == "slices.Concat" {
+								out = stripRecv(P.sym(cv))
+								return true
+							}
+							return false
+						})
+						return out
+					}
+					mine := concatSym(lc.Call.Args[0])
+					if mine == "" {
+						return false
+					}
+					for _, cj := range callsIn(rd) {
+						if cc, ok := cj.(*ssa.Call); ok && calleeName(&cc.Call) == "builtin.copy" && len(cc.Call.Args) == 2 {
+							if concatSym(cc.Call.Args[1]) == mine {
+								return true
+							}
+						}
+					}
+					return false
+				}():
+					k = "header"
 				case P.reaches(v, func(x ssa.Value) bool {
 					fa, ok := x.(*ssa.FieldAddr)
 					if !ok {
@@ -1078,6 +1114,27 @@ func (R *Run) ruleWalkFilterAgree() {
 						nInc++
 						if reach[st.Block()] {
 							incReach = true
+						}
+					} else if phi, isPhi := b.Y.(*ssa.Phi); isPhi {
+						// `count += w` with w chosen between 0 and 1 beforehand: the 1 must not be chosen for a skipped entry
+						ones, other := 0, false
+						for i, e := range phi.Edges {
+							k, isK := constInt(e)
+							switch {
+							case isK && k == 1:
+								ones++
+								if reach[phi.Block().Preds[i]] {
+									incReach = true
+								}
+							case isK && k == 0:
+							default:
+								other = true
+							}
+						}
+						if ones > 0 && !other {
+							nInc++
+						} else if other {
+							nInc += 2
 						}
 					}
 				}
@@ -1340,7 +1397,7 @@ func (R *Run) rulePartialPreserved() {
 					good := k == 0
 					if !good && len(idxs) == 2 {
 						// the partial file itself moved (fileWrapper.Move): source is the wrapper's partial path
-						if f, ok := loadedField(c.Args[idxs[0]]); ok && f == "hotline.fileWrapper.incompletePath" {
+						if f, ok := loadedField(resolveLocal(stripConv(c.Args[idxs[0]]))); ok && f == "hotline.fileWrapper.incompletePath" {
 							good = true
 						}
 					}
